@@ -79,12 +79,37 @@ def interleaved(perm):
     return out
 
 
-def arrangement_names(k, extras=True):
-    """Names of the arrangements of the alphabet of size parameter k, simplest first.
+def next_prime(n):
+    """Smallest prime > n."""
+    p = max(2, n + 1)
+    while any(p % d == 0 for d in range(2, int(math.isqrt(p)) + 1)):
+        p += 1
+    return p
+
+
+def modular_inverse(n, a, b):
+    """Arrangement by inversion in the prime field just above n: with p the smallest prime > n, the sequence
+    v_i = a * ((i + b) mod p)^-1 mod p  (0^-1 := 0), i = 0..p-1, is a permutation of 0..p-1; the p - n values
+    >= n are deleted.  Unlike an affine map its short- and long-range rank correlations are all small
+    (O(1/sqrt(p))), so window sums fluctuate the way independent noise does."""
+    p = next_prime(n)
+    out = []
+    for i in range(p):
+        x = (i + b) % p
+        v = (a * pow(x, -1, p)) % p if x else 0
+        if v < n:
+            out.append(v)
+    return out
+
+
+def arrangement_names(k, extras=True, km=None):
+    """Names of the arrangements of the alphabet, simplest first: k affine multipliers (x 3 offsets, + the two
+    derived arrangements each when `extras`), km modular-inverse arrangements (default: 3 * k).
 
     'A<j>.<m>'  affine, j-th multiplier (0-based), m-th offset (0: 0, 1: n//3, 2: n//2)
     'R<j>'      block-reversed (blocks of 8) affine(j, offset 0)
     'I<j>'      interleaved affine(j, offset 0)
+    'M<j>'      modular inverse in the prime field above n, j-th multiplier, offset number j mod 3
     """
     names = []
     for j in range(k):
@@ -94,6 +119,8 @@ def arrangement_names(k, extras=True):
         for j in range(k):
             names.append("R%d" % j)
             names.append("I%d" % j)
+        for j in range(3 * k if km is None else km):
+            names.append("M%d" % j)
     return names
 
 
@@ -104,6 +131,10 @@ def permutation(n, name):
         j, m = int(j), int(m)
         a = multipliers(n, j + 1)[j]
         return affine(n, a, offsets(n)[m])
+    if kind == "M":
+        j = int(name[1:])
+        p = next_prime(n)
+        return modular_inverse(n, multipliers(p, j + 1)[j], offsets(p)[j % 3])
     j = int(name[1:])
     a = multipliers(n, j + 1)[j]
     base = affine(n, a, 0)
